@@ -1233,6 +1233,13 @@ def build_operator_operand_fixup(capture_error_state):
         )
 
     def fixup(left_op, op, right_op):
+        result = operand_fixup(left_op, op, right_op)
+        if isinstance(result, complex):
+            # negative base with a fractional exponent: Excel gives #NUM!
+            return NUM_ERROR
+        return result
+
+    def operand_fixup(left_op, op, right_op):
         """Fix up python operations to be more excel like in these cases:
 
             Operand error
@@ -1305,6 +1312,10 @@ def build_operator_operand_fixup(capture_error_state):
         except TypeError:
             capture_error_state(True, f'Values: {left_op} {op} {right_op}')
             return VALUE_ERROR
+        except OverflowError:
+            # result too large for a number: Excel gives #NUM!
+            capture_error_state(True, f'Values: {left_op} {op} {right_op}')
+            return NUM_ERROR
 
     return fixup
 
